@@ -410,7 +410,9 @@ class Case:
         # items present before and not named by W must read back identically afterwards
         target = self._target_names(w)
         for opn, keyf in (("adsorbates_from_db", lambda c: rs._cd(c)["name"][1]), ("materials_from_db", lambda c: rs._cd(c)["name"][1]),
-                          ("isotherms_from_db", lambda c: c["iso_id"])):
+                          # an isotherm's identifier covers the properties of its material, which W may legitimately
+                          # overwrite: prior isotherms are matched by their own content (everything but those properties)
+                          ("isotherms_from_db", lambda c: c["loose"])):
             pre = {keyf(c): c for c in reads["pre"][opn]}
             post = {keyf(c): c for c in reads["post"][opn]}
             for k, c in pre.items():
